@@ -392,8 +392,29 @@ def c20_execute(trace, tier, res):
             trace["plans"] = plans
         res["nontrivial"] = bool(plans)
         best = None
-        for pi, plan in enumerate(plans):
+        # episodes that follow a disturbed history: part of the plan is
+        # played, a reset() call is rejected (bad seed; the caller catches
+        # the exception), reset() is called properly, and the REST of the
+        # plan is the judged episode.  With a correct reset that rest cannot
+        # reach the goal (nothing is compromised any more) and is not
+        # counted; whatever reaches the goal is held against the bound.
+        fx = core.stream(seed, "faults2")
+        variants = [(pi, plan, None) for pi, plan in enumerate(plans)]
+        for pi, plan in enumerate(plans[:3]):
+            if len(plan) >= 3:
+                variants.append((pi, plan, fx.randint(1, len(plan) - 1)))
+        for pi, plan, cut in variants:
             sim.exec_op({"op": "reset"})
+            if cut is not None:
+                counters.hit("fault.rejected_reset_mid_episode")
+                for a in plan[:cut]:
+                    sim.exec_op({"op": "step", "a": a,
+                                 "u": [float(0.0).hex()]})
+                sim.exec_op({"op": "reject", "call": "reset",
+                             "how": fx.choice(["neg", "float", "str",
+                                               "int64"])})
+                sim.exec_op({"op": "reset"})
+                plan = plan[cut:]
             total = 0.0
             done = False
             for a in plan:
